@@ -38,6 +38,12 @@ theorem lat2_unit (u v n : V3 α) (hn : V3.dot n n = 1) : lat2 u v n = d2 u v - 
   simp only [lat2, d2, proj, V3.normSq, V3.dot, V3.smul, V3.sub_def, V3.sub] at *
   linear_combination ((v.x - u.x) * n.x + (v.y - u.y) * n.y + (v.z - u.z) * n.z) ^ 2 * hn
 
+/-- Pythagoras for ANY normal (`s = n·n`): `lateral² = dist² − proj²·(2 − s)` -/
+theorem lat2_general (u v n : V3 α) :
+    lat2 u v n = d2 u v - proj u v n * proj u v n * (2 - V3.dot n n) := by
+  simp only [lat2, d2, proj, V3.normSq, V3.dot, V3.smul, V3.sub_def, V3.sub]
+  ring
+
 theorem d2_symm (u v : V3 α) : d2 u v = d2 v u := by
   simp only [d2, V3.dot, V3.sub_def, V3.sub]; ring
 
